@@ -155,6 +155,17 @@ RequiredSA(op) ==
       [] op = \hA3 -> [ REPORT_TARGET_PORT_GROUPS |-> \h0A, REPORT_PRIORITY |-> \h0E ]
       [] OTHER -> [x \in {} |-> 0]
 
+\* named operation codes whose name already denotes one service action
+NamedSA(name) ==
+    CASE name = "READ_LONG_16" -> [ READ_LONG_16 |-> \h11 ]
+      [] name = "WRITE_LONG_16" -> [ WRITE_LONG_16 |-> \h11 ]
+      [] name = "REPORT_ALIAS" -> [ REPORT_ALIAS |-> \h0B ]
+      [] name = "READ_MEDIA_SERIAL_NUMBER" -> [ READ_MEDIA_SERIAL_NUMBER |-> \h01 ]
+      [] name = "PERSISTENT_RESERVE_IN" -> SA_PRIn
+      [] name = "PERSISTENT_RESERVE_OUT" -> [ REGISTER |-> 0, RESERVE |-> 1, RELEASE |-> 2, CLEAR |-> 3, PREEMPT |-> 4,
+              PREEMPT_AND_ABORT |-> 5, REGISTER_AND_IGNORE_EXISTING_KEY |-> 6, REGISTER_AND_MOVE |-> 7 ]
+      [] OTHER -> [x \in {} |-> 0]
+
 (* ---- status codes (SAM-5) ------------------------------------------------ *)
 
 Status == [ GOOD |-> \h00, CHECK_CONDITION |-> \h02, CONDITION_MET |-> \h04, CONDITIONS_MET |-> \h04,
